@@ -53,12 +53,11 @@ pub fn runner_for(prop: &str) -> &'static str {
     }
 }
 
-const GOOD_URLS: [&str; 10] = ["http://example.com/", "https://omaha.example.org/service/update/json", "http://[::1]:8080/?a=b",
+const GOOD_URLS: [&str; 11] = ["http://example.com/", "https://omaha.example.org/service/update/json", "http://[::1]:8080/?a=b",
                               "https://user@host.example:444/p/q?x=1&y=2", "http://example.com",
-                              // queries that are not key=value lists: a bare flag, an empty query, doubled and trailing separators, empty names and values
-                              // (a service URL that already carries a cup2key parameter is covered by C03's byte-exact cases: the trace canonicaliser here reads the first one)
+                              // queries that are not key=value lists: a bare flag, an empty query, doubled and trailing separators, empty names and values, a cup2key of its own
                               "http://host.example/path?beta", "http://host.example/path?", "http://host.example/p?a=1&&b=2",
-                              "http://host.example/p?a=1&", "http://host.example:8443/p?=v&k="];
+                              "http://host.example/p?a=1&", "http://host.example:8443/p?=v&k=", "http://host.example/p?cup2key=1:00"];
 const BAD_URLS: [&str; 3] = ["/relative/only", "http://exa mple.com/", ""];
 
 fn zs(z: i128) -> Value { json!(z.to_string()) }
